@@ -399,6 +399,15 @@ Section Accept.
                            match d_errs (ctx_check st) with [] => false | _ => true end)
     then dstep st (LPick v) else None.
 
+  (* a vertex with negative retries never enters its function (the attempt loop runs zero times):
+     its thread takes a slot and reports nil without any observable event *)
+  Definition silent (v : vid) : bool := Z.ltb (retries g v) 0.
+  Definition silent_start (st : dstate) (v : vid) : option dstate :=
+    if silent v then match d_thread st v with Waiting => dstep st (LStart v) | _ => None end else None.
+  Definition silent_pick (st : dstate) (v : vid) : option dstate :=
+    if silent v && eligible g st v then dstep st (LPick v) else None.
+
+  (* the moves the scheduler makes without any observable event, in the order it makes them *)
   Definition drain_step (st : dstate) : option dstate :=
     match first_some (fun v => dstep st (LRecvReal v)) (vids g) with
     | Some s => Some s
@@ -408,7 +417,11 @@ Section Accept.
         | [] =>
             match first_some (pseudo_pick st) (vids g) with
             | Some s => Some s
-            | None => if d_cancelled st && negb (d_handled st) then dstep st LIdle else None
+            | None =>
+                match first_some (silent_pick st) (vids g) with
+                | Some s => Some s
+                | None => if d_cancelled st && negb (d_handled st) then dstep st LIdle else None
+                end
             end
         end
     end.
@@ -419,17 +432,43 @@ Section Accept.
     | S f => match drain_step st with Some s => drain f s | None => st end
     end.
 
+  Definition FUEL : nat := 4 * List.length (vids g) * List.length (vids g) + 16.
+
+  (* When a silent thread takes its slot relative to the observable starts is not visible in the
+     trace: [variants] lists the drained state with 0, 1, 2, ... silent threads started (each start
+     followed by the scheduler's reaction); [eager] is the last of them, the only one possible at
+     a quiescent point. *)
+  Fixpoint variants (fuel : nat) (st : dstate) : list dstate :=
+    let s0 := drain FUEL st in
+    match fuel with
+    | O => [s0]
+    | S f => match first_some (silent_start s0) (vids g) with
+             | Some s1 => s0 :: variants f s1
+             | None => [s0]
+             end
+    end.
+
+  Fixpoint eager (fuel : nat) (st : dstate) : dstate :=
+    let s0 := drain FUEL st in
+    match fuel with
+    | O => s0
+    | S f => match first_some (silent_start s0) (vids g) with
+             | Some s1 => eager f s1
+             | None => s0
+             end
+    end.
+
+  Definition VF : nat := S (List.length (vids g)).
+
   (* at a quiescent point every vertex the scheduler can launch has been launched *)
   Fixpoint pick_all (fuel : nat) (st : dstate) : dstate :=
     match fuel with
     | O => st
     | S f => match first_some (fun v => dstep st (LPick v)) (vids g) with
-             | Some s => pick_all f (drain f s)
+             | Some s => pick_all f (eager VF s)
              | None => st
              end
     end.
-
-  Definition FUEL : nat := 4 * List.length (vids g) * List.length (vids g) + 16.
 
   (* a waiting thread that could take a slot means the implementation is not work conserving *)
   Definition startable (st : dstate) : bool :=
@@ -438,46 +477,64 @@ Section Accept.
   Inductive averdict := AOk (st : dstate) | ABad (why : nat).
   (* why: 1 Enter not allowed (dependencies / errors / cancellation), 2 Enter without capacity,
      3 attempt numbering, 4 Exit of a task that is not running, 5 ready task not started,
-     6 the trace ends but the model cannot return, 7 result differs *)
+     6 the trace ends but the model cannot return, 7 result differs, 8 no placement of the
+     unobservable (negative-retries) tasks fits the trace *)
 
-  Definition accept_event (st : dstate) (e : oevent) : averdict :=
-    match e with
-    | OEnter v O =>
-        let st1 := drain FUEL st in
-        let st2 := match d_thread st1 v with
-                   | Waiting => Some st1
-                   | _ => dstep st1 (LPick v)
-                   end in
-        match st2 with
-        | None => ABad 1
-        | Some s2 =>
-            match d_thread s2 v with
-            | Waiting => match dstep s2 (LStart v) with Some s3 => AOk s3 | None => ABad 2 end
-            | _ => ABad 1
-            end
+  (* one event from one drained state *)
+  Definition enter_from (st1 : dstate) (v : vid) : averdict :=
+    let st2 := match d_thread st1 v with
+               | Waiting => Some st1
+               | _ => dstep st1 (LPick v)
+               end in
+    match st2 with
+    | None => ABad 1
+    | Some s2 =>
+        match d_thread s2 v with
+        | Waiting => match dstep s2 (LStart v) with Some s3 => AOk s3 | None => ABad 2 end
+        | _ => ABad 1
         end
-    | OEnter v (S k) =>
-        match d_thread st v with Running k' => if Nat.eqb k' (S k) then AOk st else ABad 3 | _ => ABad 3 end
-    | OExit v k r =>
-        match d_thread st v with
-        | Running k' => if Nat.eqb k k' then match dstep st (LExit v r) with Some s => AOk s | None => ABad 4 end else ABad 3
-        | _ => ABad 4
-        end
-    | OCancel => match dstep st LCancel with Some s => AOk (drain FUEL s) | None => AOk st end
-    | OQuiet =>
-        let st1 := pick_all FUEL (drain FUEL st) in
-        if startable st1 then ABad 5 else AOk st1
     end.
 
+  Definition accept_event (st : dstate) (e : oevent) : list averdict :=
+    match e with
+    | OEnter v O => List.map (fun st1 => enter_from st1 v) (variants VF st)
+    | OEnter v (S k) =>
+        [match d_thread st v with Running k' => if Nat.eqb k' (S k) then AOk st else ABad 3 | _ => ABad 3 end]
+    | OExit v k r =>
+        [match d_thread st v with
+         | Running k' => if Nat.eqb k k' then match dstep st (LExit v r) with Some s => AOk s | None => ABad 4 end else ABad 3
+         | _ => ABad 4
+         end]
+    | OCancel => [match dstep st LCancel with Some s => AOk (eager VF s) | None => AOk st end]
+    | OQuiet =>
+        let st1 := pick_all FUEL (eager VF st) in
+        [if startable st1 then ABad 5 else AOk st1]
+    end.
+
+  Definition oks (l : list averdict) : list dstate :=
+    flat_map (fun a => match a with AOk s => [s] | ABad _ => [] end) l.
+
+  (* all states the trace can lead to (bounded: at most 64 are kept) *)
+  Fixpoint accept_all (sts : list dstate) (es : list oevent) : list dstate :=
+    match es with
+    | [] => sts
+    | e :: r => accept_all (firstn 64 (oks (flat_map (fun st => accept_event st e) sts))) r
+    end.
+
+  (* the first reason on the path that starts every silent thread as late as possible *)
   Fixpoint accept (st : dstate) (es : list oevent) : averdict :=
     match es with
     | [] => AOk st
-    | e :: r => match accept_event st e with AOk s => accept s r | bad => bad end
+    | e :: r => match accept_event st e with
+                | AOk s :: _ => accept s r
+                | ABad w :: _ => ABad w
+                | [] => ABad 8
+                end
     end.
 
   (* after the last event: everything left is skipped by the scheduler, then Run returns *)
   Definition finish_run (st : dstate) : option dstate :=
-    let st1 := pick_all FUEL (drain FUEL st) in
+    let st1 := pick_all FUEL (eager VF st) in
     dstep st1 LReturn.
 End Accept.
 
@@ -490,7 +547,7 @@ Fixpoint p13_deps (g : graph) (seen : list oevent) (es : list oevent) : bool :=
   | [] => true
   | e :: r =>
       (match e with
-       | OEnter v _ => forallb (final_ok_before seen) (v_children (vget g v))
+       | OEnter v _ => forallb (fun c => final_ok_before seen c || Z.ltb (v_retries (vget g c)) 0) (v_children (vget g v))
        | _ => true
        end) && p13_deps g (seen ++ [e]) r
   end.
@@ -526,9 +583,7 @@ Definition check_gcase (c : gcase) : bool :=
   | PreLoop =>
       p13_deps g [] (gc_events c) &&
       p15_bound (if gc_serial c then 1 else gc_cap c) 0 (gc_events c) &&
-      match accept g cf (init_state []) (gc_events c) with
-      | ABad _ => false
-      | AOk st =>
+      existsb (fun st =>
           match finish_run g cf st with
           | None => false
           | Some fin =>
@@ -536,8 +591,7 @@ Definition check_gcase (c : gcase) : bool :=
               | [] => gc_nil c
               | errs => negb (gc_nil c) && gerrs_same errs (gc_result c)
               end
-          end
-      end
+          end) (accept_all g cf [init_state []] (gc_events c))
   end.
 
 Definition explain_gcase (c : gcase) : nat :=
@@ -549,9 +603,9 @@ Definition explain_gcase (c : gcase) : nat :=
        | PreLoop =>
            if negb (p13_deps g [] (gc_events c)) then 13
            else if negb (p15_bound (if gc_serial c then 1 else gc_cap c) 0 (gc_events c)) then 15
-           else match accept g cf (init_state []) (gc_events c) with
-                | ABad w => w
-                | AOk st => match finish_run g cf st with None => 6 | Some _ => 7 end
+           else match accept_all g cf [init_state []] (gc_events c) with
+                | [] => match accept g cf (init_state []) (gc_events c) with ABad w => w | AOk _ => 8 end
+                | sts => if existsb (fun st => match finish_run g cf st with Some _ => true | None => false end) sts then 7 else 6
                 end
        | _ => 22
        end.
